@@ -440,6 +440,10 @@ func TestPropClearanceQueueFull(t *testing.T) {
 		t.Skip("needs GOMAXPROCS=1 (job 'queuefull')")
 	}
 	rapid.Check(t, func(t *rapid.T) {
+		if rapid.Bool().Draw(t, "limit_mode") {
+			queueFullLimitCase(t)
+			return
+		}
 		limit := rapid.IntRange(2, 4).Draw(t, "limit")
 		extra := rapid.IntRange(5, 60).Draw(t, "extra")
 		prio := rapid.SampledFrom([]string{"low", "low", "med"}).Draw(t, "prio")
@@ -505,4 +509,122 @@ func TestPropClearanceQueueFull(t *testing.T) {
 			stats.Sample("queuefull", map[string]any{"limit": limit, "requests": n, "priority": prio, "max_delay_ms": delayMS})
 		}
 	})
+}
+
+// queueFullLimitCase: the limit is held by medium-priority microtasks, more medium/low requests than the clearance queue
+// holds are waiting with a max delay of one hour, then the holders finish one by one. No max delay expires and no
+// high-priority microtask runs, so at no time may more than the limit be executing - also not a request that could
+// only enter the clearance queue after a place in it had become free.
+func queueFullLimitCase(t *rapid.T) {
+	limit := rapid.IntRange(2, 4).Draw(t, "limit")
+	extra := rapid.IntRange(5, 60).Draw(t, "extra")
+	prio := rapid.SampledFrom([]string{"low", "med", "med"}).Draw(t, "prio")
+	pauseUS := rapid.SampledFrom([]int{0, 200, 2000}).Draw(t, "release_pause_us")
+	modules.SetMaxConcurrentMicroTasks(limit)
+	m := mods[0]
+	var gauge, peak int32
+	enter := func() {
+		g := atomic.AddInt32(&gauge, 1)
+		for {
+			p := atomic.LoadInt32(&peak)
+			if g <= p || atomic.CompareAndSwapInt32(&peak, p, g) {
+				break
+			}
+		}
+	}
+	leave := func() { atomic.AddInt32(&gauge, -1) }
+	releases := make([]chan struct{}, limit)
+	var holders sync.WaitGroup
+	started := make(chan struct{}, limit)
+	for i := 0; i < limit; i++ {
+		releases[i] = make(chan struct{})
+		holders.Add(1)
+		go func(rel chan struct{}) {
+			defer holders.Done()
+			_ = m.RunMicroTask("holder", time.Hour, func(context.Context) error {
+				enter()
+				started <- struct{}{}
+				<-rel
+				leave()
+				return nil
+			})
+		}(releases[i])
+	}
+	for i := 0; i < limit; i++ {
+		select {
+		case <-started:
+		case <-time.After(30 * time.Second):
+			t.Fatalf("C15-3-stuck: %d holders did not start within 30 s on an idle scheduler", limit)
+		}
+	}
+	var ran int32
+	var wg sync.WaitGroup
+	n := 100 + extra
+	for i := 0; i < n; i++ {
+		wg.Add(1)
+		go func() {
+			defer wg.Done()
+			fn := func(context.Context) error {
+				enter()
+				atomic.AddInt32(&ran, 1)
+				time.Sleep(100 * time.Microsecond)
+				leave()
+				return nil
+			}
+			if prio == "low" {
+				_ = m.RunLowPriorityMicroTask("filler", time.Hour, fn)
+			} else {
+				_ = m.RunMicroTask("filler", time.Hour, fn)
+			}
+		}()
+	}
+	// let the requests pile up: the queue (100) is full, the rest are blocked on it
+	deadline := time.Now().Add(10 * time.Second)
+	for time.Now().Before(deadline) {
+		_, _, pm, pl := modules.VerifMicroTaskState()
+		if pm+pl >= 100 {
+			break
+		}
+		time.Sleep(200 * time.Microsecond)
+	}
+	time.Sleep(2 * time.Millisecond)
+	if r := atomic.LoadInt32(&ran); r != 0 {
+		for _, rel := range releases {
+			close(rel)
+		}
+		t.Fatalf("C15-1-limit: %d of the waiting %s-priority microtasks ran while %d medium-priority holders used up the limit of %d and no max delay (1 h) had expired", r, prio, limit, limit)
+	}
+	for _, rel := range releases {
+		close(rel)
+		if pauseUS > 0 {
+			time.Sleep(time.Duration(pauseUS) * time.Microsecond)
+		}
+	}
+	holders.Wait()
+	done := make(chan struct{})
+	go func() { wg.Wait(); close(done) }()
+	select {
+	case <-done:
+	case <-time.After(120 * time.Second):
+		t.Fatalf("C15-3-stuck: %d %s-priority microtasks did not all finish within 120 s after the limit was free again", n, prio)
+	}
+	if int(atomic.LoadInt32(&ran)) != n {
+		t.Fatalf("C15-2-once: %d of %d microtasks were executed", ran, n)
+	}
+	if p := atomic.LoadInt32(&peak); int(p) > limit {
+		t.Fatalf("C15-1-limit: %d medium/low-priority microtasks were executing at the same time, limit %d (no high priority, max delay 1 h; %d requests for a clearance queue of 100)", p, limit, n)
+	}
+	deadline = time.Now().Add(30 * time.Second)
+	for {
+		running, _, pm, pl := modules.VerifMicroTaskState()
+		per := modules.GetStatus().Modules[m.Name].MicroTasks
+		if running == 0 && per == 0 && pm == 0 && pl == 0 {
+			break
+		}
+		if time.Now().After(deadline) {
+			t.Fatalf("C15-3-counters: after the clearance queue overflowed (limit %d) and everything finished, the global running count is %d, the module count %d, pending clearances %d/%d (want all zero)", limit, running, per, pm, pl)
+		}
+		time.Sleep(200 * time.Microsecond)
+	}
+	stats.Case(fmt.Sprintf("queuefull-limit %d %d %s %d", limit, extra, prio, pauseUS), true, "clearance_queue_overflow_limit_held_"+prio)
 }
